@@ -26,6 +26,9 @@ pub struct Pre {
 #[derive(Default, Debug)]
 pub struct PathAcct {
     pub recvd: u64,
+    /// bytes of datagrams that arrived exactly as their sender made them (what the connection can
+    /// authenticate; `recvd` is everything, which is what the anti-amplification rule counts)
+    pub genuine_recvd: u64,
     pub sent: u64,
     pub validated: bool,
 }
@@ -315,6 +318,9 @@ impl Mon {
                 if let Some(cm) = self.conns.get_mut(&(ei, ch)) {
                     if cm.is_server {
                         cm.paths.entry(d.src).or_default().recvd += d.data.len() as u64;
+                        if !d.forged {
+                            cm.paths.entry(d.src).or_default().genuine_recvd += d.data.len() as u64;
+                        }
                         if cm.inst_addr == Some(d.src) {
                             cm.inst_recvd += d.data.len() as u64;
                         }
